@@ -15,6 +15,7 @@ fresh per operand by construction: TemporaryRegister ownership), argument order 
 import mir
 import rules
 import seqgen
+import absint
 from absint import Variant, Opaque, NONE, some
 from core import AnchorMissing
 
@@ -114,6 +115,41 @@ def run(ctx, rep):
         between = "store_skip" if op in ("And", "Or") else None
         n += check_order(rep, "C15.order|binop|%s" % op, "`a %s b`: a is evaluated before b%s" % (op, ", with a short-circuit test in between" if between else ""),
                          rows, ex, "lhs", "rhs", between=between, where=cd.span, fn=cd.path)
+    # ---- the left operand is off the operand stack while the right operand's code runs ---------------------------------------
+    # (a call takes the *whole* operand stack as its arguments and clears it: a value left there while a sub-expression runs is lost, or
+    #  becomes an argument, as soon as that sub-expression contains a call)
+    PARK = {"store_fast": -1, "store_skip": -1, "jmp_not_nil": -1}
+    parks_ok = parking_effects(F, rep)
+    for op in on + ["NilEval"]:
+        if op in ASSIGN_OPS or op == "Unwrap":
+            continue
+        e = binop(op) if op != "NilEval" else expr("NilEval", [Opaque("lhs"), Opaque("rhs")])
+        rows, ex = seqgen.sequences(F, cd, [e, Opaque("state"), Opaque("depth")])
+        seqs = sorted({r["seq"] for r in rows if r["seq"] is not None}, key=show)
+        if ex or not seqs:
+            rep.ob("C15.parked", "`a %s b`: emitted code" % op, "undecided", "no sequence read", cd.span, fn=cd.path, key="C15.parked|%s" % op)
+            continue
+        bad, unk = [], []
+        for sq in seqs:
+            pl, pr = positions(sq, "lhs"), positions(sq, "rhs")
+            if len(pl) != 1 or len(pr) != 1 or pl[0] > pr[0]:
+                continue            # judged by C15.order
+            seg = sq[pl[0] + 1:pr[0]]
+            depth = 1
+            for x in seg:
+                if x[0] == "ins" and x[1] in PARK:
+                    depth += PARK[x[1]]
+                else:
+                    unk.append(show(sq))
+                    depth = None
+                    break
+            if depth is not None and depth != 0:
+                bad.append("`%s`: %d value(s) of this operator are still on the operand stack when the code of b starts" % (show(sq), depth))
+        st = "violated" if bad else ("undecided" if (unk or not parks_ok) else "ok")
+        rep.ob("C15.parked", "`a %s b`: the value of a is parked in a register (off the operand stack) while the code of b runs" % op, st,
+               "; ".join(bad) if bad else ("unknown instruction between the operands: %s" % unk[:2] if unk else "emitted: %s" % show(seqs[0])), cd.span, fn=cd.path,
+               key="C15.parked|%s" % op)
+        n += 1
     # ---- && / ||: the skip count lands right after the operator's own code ------------------------------------------------
     import opcodes
     from mir import op_local, op_const
@@ -289,3 +325,22 @@ def statements_emit_their_expression(F, rep, rule, only=None):
                "paths without it: %s" % sorted(set(bad))[:3] if bad else "emitted: %s" % show(seqs[0]), dc.span, fn=dc.path,
                key="%s|statement|%s" % (rule, v["name"]))
     return n
+
+
+def parking_effects(F, rep):
+    """store_fast, and the fall-through paths of store_skip / jmp_not_nil, take exactly one value off the operand stack and put none back"""
+    from props import C12 as _c12
+    import tables as _tables
+    T = _tables.Tables(F)
+    good = True
+    bi = T.prim_names.index("Bool")
+    tv = Variant(_c12.PRIM if hasattr(_c12, "PRIM") else "bytecode::variables::primitive::Primitive", bi, "Bool", [absint.TRUE])
+    for name, top, arg0 in (("store_fast", T.prim_value("Int", "v"), "r"),):
+        fn = _c12.handler(F, name)
+        res, ex = _c12.run_handler(F, T, fn, top, arg0=arg0)
+        oks = [i for k, i in res if k == "Ok"]
+        ok_ = bool(oks) and not ex and all(sum(1 for e in i["events"] if e[0] == "pop") == 1 and not any(e[0] == "push" for e in i["events"]) for i in oks)
+        rep.ob("C15.parked", "%s takes one value off the operand stack and pushes none" % name, "ok" if ok_ else "undecided",
+               "Ok paths: %s" % [[e[0] for e in i["events"] if e[0] in ("pop", "push")] for i in oks][:3], fn.span, fn=fn.path, key="C15.parked|handler|%s" % name)
+        good = good and ok_
+    return good
